@@ -88,8 +88,7 @@ theorem processPending_no_timeout (s : St) (now : Int) : (processPending s now).
     split
     · split
       · rename_i sn hf
-        simp only [entOut]
-        rcases entWrite_reply (evict { s with pending := none } p.key sn) p.key p.val p.ts now with h | h <;> simp [h]
+        rcases evictWrite_reply { s with pending := none } p.key p.val p.ts now sn with h | h <;> simp [h]
       · simp only [entOut]
         rcases entWrite_reply { s with pending := none } p.key p.val p.ts now with h | h <;> simp [h]
     · simp [Out.none]
@@ -108,8 +107,7 @@ theorem methodWrite_no_timeout (s : St) (k : Nat) (v : Int) (ts now : Int) :
     · rw [if_pos hb] at h
       split at h <;> simp [Out.none] at h
     · rw [if_neg hb] at h
-      simp only [entOut] at h
-      rcases entWrite_reply (evict s k sn) k v ts now with hc | hc <;> simp [hc] at h
+      rcases evictWrite_reply s k v ts now sn with hc | hc <;> simp [hc] at h
 
 /-- C27 (no early and no spurious Timeout): a step answers Timeout ONLY if it is a worker iteration, a write is
     parked, its expiration is finite and the clock of that iteration has reached it. In particular every
@@ -173,13 +171,16 @@ theorem methodWrite_pending_kept (s : St) (k : Nat) (v : Int) (ts now : Int) (p 
     · rw [if_pos hb] at h ⊢
       simp [hp] at h
     · rw [if_neg hb] at h
-      simp [entOut] at h
+      rcases evictWrite_reply s k v ts now sn with hc | hc <;> simp [hc] at h
 
 theorem processPending_pending_kept (s : St) (now : Int) (p : Pending) (hp : s.pending = some p)
     (h : (processPending s now).2.reply = none) : (processPending s now).1.pending = some p := by
   simp only [processPending, hp] at h ⊢
   split at h
-  · split at h <;> simp [entOut] at h
+  · split at h
+    · rename_i sn _
+      rcases evictWrite_reply { s with pending := none } p.key p.val p.ts now sn with hc | hc <;> simp [hc] at h
+    · simp [entOut] at h
   · rename_i hcw; rw [if_neg hcw]; exact hp
 
 /-- a parked write stays parked, unchanged, until the step that answers it -/
